@@ -19,6 +19,9 @@
 //	tf <tv> <startOffset> <stream>          analysis.TokenFrequency
 //	doc <gap> <stream>|<stream>|…           Document.Analyze over repeated fields of one name (position gaps)
 //
+//	conc <analyzer> <hex>+<hex>…            ONE analyzer value used by 8 goroutines at once     -> same|differs:n|panic:n|ref-panic
+//	concp <tok> <spec,…> <hex>+<hex>…       the same for a tokenizer + configurable filter chain (conc.go)
+//
 // <stream> = "_" (no token) or tokens joined by ";", token = termHex,start,end,posIncr,type,keyword.
 package main
 
@@ -916,6 +919,12 @@ func (h) Exec(line string, out func(string, string), st *hlib.Stats, work string
 		execTF(w, out, st)
 	case w[0] == "doc" && len(w) >= 3:
 		execDoc(w, out, st)
+	case w[0] == "stem" && len(w) >= 3:
+		execStem(w, out, st)
+	case w[0] == "util" && len(w) >= 3:
+		execUtil(w, out, st)
+	case (w[0] == "conc" && len(w) >= 3) || (w[0] == "concp" && len(w) >= 4):
+		execConc(w, out, st)
 	default:
 		out(line, "bad-op")
 	}
